@@ -446,7 +446,14 @@ pub fn gen_c03(sh: &mut Shards, o: &Opts) -> serde_json::Value {
             px.extend(mixed_near_black());
             samples += 3 * px.len() as u64;
             for (at, w, h) in cut_images(px.len(), ti + di) {
-                let img = &px[at..at + w * h];
+                // curves for which the standards circulate two sets of constants (sRGB, PQ): every event also carries bright
+                // samples, where the candidate formulas are furthest apart, so that ONE of them has to explain the whole event
+                let mut own: Vec<[f32; 3]> = px[at..at + w * h].to_vec();
+                if (t == 16 || t == 13) && own.len() >= 2 {
+                    let last = own.len() - 1;
+                    own[last] = [1.0, 0.9, 0.8];
+                }
+                let img = &own[..];
                 let mut s = String::new();
                 let _ = write!(s, "\"ev\":\"tf\",\"tc\":{t},\"dir\":\"{dir}\",\"w\":{w},\"h\":{h},\"x\":");
                 list(&mut s, img, px_fx);
